@@ -12,8 +12,8 @@ package main
 // `<fetch> -m <method> <pattern>...`).
 //
 // Case line:  C18 <glob> <ing>[,<ing>...] => <path>|<path>...||<binds>   (or `alloc ...`, see c18Alloc)
-//   <glob>   x<0|1>l<0|1>r<rng>    ConverterOptions.IsExternal, global `external-has-lua`,
-//            global `auth-proxy` range: 0,1,2,3 ports starting at 14415; `i` unparsable; `d` key absent
+//   <glob>   x<0|1>l<0|1>[c<0|1>]r<rng>    ConverterOptions.IsExternal, global `external-has-lua`,
+//            global `cross-namespace-services: allow` (absent = deny), global `auth-proxy` range: 0,1,2,3 ports starting at 14415; `i` unparsable; `d` key absent
 //   <ing>    <host>.<path>.<svc>.<match>.<url>.<plc>.<oauth>.<signin>   one Ingress (name ing01.. in list order)
 //            with one rule/path: host h<host>.local, path (0 /a, 1 /b, 2 /c, 9 /oauth2),
 //            service (0 echo0, 1 echo1, 2 oauth2proxy), match b|p|e (ImplementationSpecific/Prefix/Exact)
@@ -84,6 +84,7 @@ type c18Ing struct {
 
 type c18Scenario struct {
 	ext, lua bool
+	xns      bool // global cross-namespace-services: allow
 	rng      string
 	ings     []c18Ing
 }
@@ -140,7 +141,11 @@ func (s *c18Scenario) args() string {
 		}
 		p[i] = fmt.Sprintf("%d.%d.%d.%c.%s.%s.%s.%s", g.host, g.path, g.svc, g.match, g.url, g.plc, g.oauth, sg)
 	}
-	return fmt.Sprintf("x%sl%sr%s %s", b(s.ext), b(s.lua), s.rng, strings.Join(p, ","))
+	x := ""
+	if s.xns {
+		x = "c1"
+	}
+	return fmt.Sprintf("x%sl%s%sr%s %s", b(s.ext), b(s.lua), x, s.rng, strings.Join(p, ","))
 }
 
 func c18Parse(a []string) (*c18Scenario, error) {
@@ -148,10 +153,19 @@ func c18Parse(a []string) (*c18Scenario, error) {
 		return nil, fmt.Errorf("want 2 fields, got %d", len(a))
 	}
 	g := a[0]
-	if len(g) < 6 || g[0] != 'x' || g[2] != 'l' || g[4] != 'r' {
+	if len(g) < 6 || g[0] != 'x' || g[2] != 'l' {
 		return nil, fmt.Errorf("bad global token %q", g)
 	}
-	sc := &c18Scenario{ext: g[1] == '1', lua: g[3] == '1', rng: g[5:]}
+	sc := &c18Scenario{ext: g[1] == '1', lua: g[3] == '1'}
+	g = g[4:]
+	if len(g) >= 2 && g[0] == 'c' {
+		sc.xns = g[1] == '1'
+		g = g[2:]
+	}
+	if len(g) < 2 || g[0] != 'r' {
+		return nil, fmt.Errorf("bad global token %q", a[0])
+	}
+	sc.rng = g[1:]
 	for _, t := range strings.Split(a[1], ",") {
 		f := strings.Split(t, ".")
 		if len(f) != 8 || len(f[3]) != 1 || (f[7] != "-" && f[7] != "s") {
@@ -251,6 +265,9 @@ func c18Host(i int) string { return fmt.Sprintf("h%d.local", i) }
 
 var c18Debug = os.Getenv("C18_DEBUG") != ""
 
+// C18_SAMPLE=n: debugging aid, sample order-sensitive scenarios until n quiet runs and print the histogram
+var c18Sample, _ = strconv.Atoi(os.Getenv("C18_SAMPLE"))
+
 // c18Run returns the implementation output of one scenario.  With pad, three extra ingresses
 // (own host, own service, no authentication) are registered after every ingress of the scenario:
 // they only spread the scenario's hosts and backends over the Go maps the converter iterates,
@@ -283,6 +300,9 @@ func c18Run(sc *c18Scenario, pad bool) (string, error) {
 	global := map[string]string{}
 	if sc.lua {
 		global["external-has-lua"] = "true"
+	}
+	if sc.xns {
+		global["cross-namespace-services"] = "allow"
 	}
 	switch sc.rng {
 	case "d":
@@ -777,29 +797,52 @@ func c18Once(sc *c18Scenario, pad bool) (out string) {
 }
 
 // c18OrderSensitive: the converter walks Hosts().Items() and Backends().Items(), two Go maps. The
-// outcome can depend on that order only when two hosts run buildHostAuthExternal's loop or two
-// backends call setAuthExternal (they compete for the auth-proxy ports). Over-approximation.
+// outcome can depend on that order only when two hosts (frontend placement) or two backends acquire
+// auth-proxy ports for different targets: they compete for the ports and their numbers.
+// Over-approximation; a scenario wrongly taken for insensitive would still be checked correctly (the
+// driver accepts the model output of any order), only its line could differ between two runs.
 func c18OrderSensitive(sc *c18Scenario) bool {
-	hostF, hostU, backs := map[int]bool{}, map[int]bool{}, map[int]bool{}
+	n, err := strconv.Atoi(sc.rng)
+	if (err == nil && n == 0) || sc.rng == "i" || (sc.ext && !sc.lua) {
+		return false // nothing is ever acquired
+	}
+	// the target a URL of the grammar resolves to ("" = setAuthExternal returns before acquiring)
+	target := map[string]string{"h1": "t1", "h2": "t2", "hs": "t3", "hq": "t1", "hl": "t4", "s1": "t5", "sv": "t5"}
+	if sc.xns {
+		target["so"] = "t6"
+	}
+	hostPlc, hostURL := map[int]string{}, map[int]string{}
+	backT := map[int]map[string]bool{}
 	for _, g := range sc.ings {
-		hasURL := g.url != "-" && g.url != "e"
-		if g.plc == "f" || g.plc == "F" {
-			hostF[g.host] = true
+		if _, ok := hostPlc[g.host]; !ok && g.plc != "-" {
+			hostPlc[g.host] = strings.ToLower(c18Plc[g.plc])
 		}
-		if hasURL {
-			hostU[g.host] = true
-			if g.plc == "-" || g.plc == "b" || g.plc == "B" {
-				backs[g.svc] = true
+		if _, ok := hostURL[g.host]; !ok && g.url != "-" {
+			hostURL[g.host] = g.url
+		}
+		if t := target[g.url]; t != "" && (g.plc == "-" || g.plc == "b" || g.plc == "B") {
+			if backT[g.svc] == nil {
+				backT[g.svc] = map[string]bool{}
 			}
+			backT[g.svc][t] = true
 		}
 	}
-	nh := 0
-	for h := range hostF {
-		if hostU[h] {
-			nh++
+	hostT := map[string]int{}
+	for h, p := range hostPlc {
+		if t := target[hostURL[h]]; p == "frontend" && t != "" {
+			hostT[t]++
 		}
 	}
-	return nh >= 2 || len(backs) >= 2
+	if len(hostT) >= 2 {
+		return true
+	}
+	union := map[string]bool{}
+	for _, ts := range backT {
+		for t := range ts {
+			union[t] = true
+		}
+	}
+	return len(backT) >= 2 && len(union) >= 2
 }
 
 // c18Exec: the canonical implementation output of a scenario. An order-insensitive scenario is run
@@ -810,19 +853,31 @@ func c18Exec(sc *c18Scenario) (out string, distinct int) {
 	if !c18OrderSensitive(sc) {
 		return c18Once(sc, false), 1
 	}
-	seen := map[string]bool{}
+	seen := map[string]int{}
 	quiet := 0
-	for n := 0; n < 400 && quiet < 30; n++ {
+	limit := 30
+	if c18Sample > 0 {
+		limit = c18Sample
+	}
+	for n := 0; n < 400 && quiet < limit; n++ {
 		o := c18Once(sc, true)
-		if seen[o] {
+		if seen[o] > 0 {
+			seen[o]++
 			quiet++
 			continue
 		}
-		seen[o] = true
+		seen[o] = 1
 		quiet = 0
 		if out == "" || o < out {
 			out = o
 		}
+	}
+	if c18Sample > 0 {
+		fmt.Fprintf(os.Stderr, "C18 sample %s:", sc.args())
+		for _, n := range seen {
+			fmt.Fprintf(os.Stderr, " %d", n)
+		}
+		fmt.Fprintln(os.Stderr)
 	}
 	return out, len(seen)
 }
@@ -1067,6 +1122,7 @@ func c18Random(r *gen.Rng) *c18Scenario {
 	case 2:
 		sc.lua = true
 	}
+	sc.xns = r.Chance(1, 2)
 	sc.rng = gen.Pick(r, []string{"0", "1", "1", "2", "2", "3", "i", "d"})
 	n := r.Range(1, 4)
 	used := map[[2]int]bool{}
@@ -1138,6 +1194,9 @@ func runC18(c *ctx) {
 		"x0l0ri 0.0.0.b.h1.b.-.-",
 		"x0l0rd 0.0.0.b.hl.b.-.-,0.1.0.b.hn.b.-.-",
 		"x0l0r1 0.0.0.b.h1.b.-.-,0.1.0.b.h2.b.-.-,1.0.1.b.hq.b.-.-",
+		"x0l0r2 0.0.0.b.so.b.-.-",   // service of another namespace: denied unless cross-namespace-services allows it
+		"x0l0c1r2 0.0.0.b.so.b.-.-", // ... allowed
+		"x0l0c1r2 0.0.0.b.sn.b.-.-",
 	}
 	for _, l := range corpus {
 		c18case(c, c18Must(l))
@@ -1168,7 +1227,7 @@ func runC18(c *ctx) {
 
 	// ---- exhaustive: one declaring path (plus the oauth2-proxy ingress when oauth names it)
 	var scs []*c18Scenario
-	globs := []string{"x0l0", "x1l0", "x1l1"}
+	globs := []string{"x0l0", "x1l0", "x1l1", "x0l0c1"}
 	plcs := []string{"-", "b", "f", "t"}
 	oauths := []string{"-", "o", "m", "u"}
 	rngs := []string{"0", "2"}
